@@ -7,9 +7,11 @@ Hand-written, tick-exact model of `amd/timing/cp`:
 `processRspFromInternal` (the same two again). One `pass` = `cpMiddleware.Handle`
 (`processFlushReq` / `processMemCopyReq` on the head of the driver port), `processRspFromDMAs`
 (`processMemCopyRsp`), `ctrlMiddleware.processRspFromCaches` (`processCacheFlushRsp` →
-`processRegularCacheFlush`). Ports are Akita buffers with capacities; the `Send`s whose error the code
-ignores (`ToDMA.Send(cloned)`, `ToDriver.Send(rsp)` three times) are modelled as they are: the message
-is dropped when the outgoing buffer is full (ghost event with `sent = false`).
+`processRegularCacheFlush`). Ports are Akita buffers with capacities; a message (driver request, DMA answer, last cache
+acknowledgement) is consumed only when the `Send` it causes succeeds — otherwise the stage reports
+no progress and is retried by a later tick. The code before the repair (error of `ToDMA.Send(cloned)`
+and of `ToDriver.Send(rsp)` ×3 ignored: the message was dropped, ghost event with `sent = false`) is
+kept as `Cp.handleOld / dmaRspOld / cacheRspOld / tickOld`, `CpEnv.stepOld`.
 -/
 namespace C11
 open Util
@@ -82,12 +84,107 @@ def Cp.flushCache (s : Cp) (i : Nat) : Cp :=
     { s with cacheOut := s.cacheOut ++ [i], numAck := s.numAck + 1, log := s.log ++ [.cacheReq i] }
   else { s with fault := some "cache_send" }
 
+/-- `ToDriver.Send(rsp)` after `ToDriver.CanSend()` held (or with the error checked): the answer is
+    appended -/
+def Cp.pushDrv (s : Cp) (m : CpMsg) : Cp := { s with drvOut := s.drvOut ++ [m] }
+
+/-- `cpMiddleware.Handle`: `processFlushReq` / `processMemCopyReq`. A request is taken from the
+    driver port only when the `Send` it causes succeeds: a flush without caches whose answer does not
+    fit into ToDriver (`err != nil` → `return false`, nothing changed: no cache was asked) and a copy
+    while ToDMA is full (`!m.ToDMA.CanSend()`, before the clone is made) leave the state as it is and
+    report no progress. -/
+def Cp.handle (s : Cp) : Cp × Bool :=
+  if s.fault.isSome then (s, false) else
+  match s.drvIn with
+  | [] => (s, false)
+  | m :: rest =>
+    if s.numAck > 0 then (s, false) else
+    match m.kind with
+    | .flush =>
+      let s1 := { s with log := s.log ++ [.flushStart m.id] }
+      let s1 := (List.range s1.nCaches).foldl Cp.flushCache s1
+      if s1.fault.isSome then (s1, true) else
+      if s1.numAck = 0 then
+        if s1.drvOut.length < s1.capDrv then
+          let s1 := s1.pushDrv m
+          ({ s1 with log := s1.log ++ [.flushDone m.id true], curFlush := some m.id, drvIn := rest }, true)
+        else (s, false)
+      else ({ s1 with curFlush := some m.id, drvIn := rest }, true)
+    | k =>
+      if s.dmaOut.length < s.capDma then
+        let cid := s.nextCid
+        let s : Cp := { s with nextCid := s.nextCid + 1 }
+        let s : Cp := if k = .h2d then { s with mapH := s.mapH ++ [(cid, m.id)] }
+                 else { s with mapD := s.mapD ++ [(cid, m.id)] }
+        let s : Cp := { s with dmaOut := s.dmaOut ++ [{ cid := cid, orig := m.id, kind := k }] }
+        ({ s with drvIn := rest, log := s.log ++ [.fwd m.id cid k true] }, true)
+      else (s, false)
+
+/-- `cpMiddleware.processRspFromDMAs` → `processMemCopyRsp`: the DMA engine's answer stays in ToDMA
+    while ToDriver is full (`!m.ToDriver.CanSend()`, before the clone map is touched) -/
+def Cp.dmaRsp (s : Cp) : Cp × Bool :=
+  if s.fault.isSome then (s, false) else
+  match s.dmaIn with
+  | [] => (s, false)
+  | c :: rest =>
+    if s.drvOut.length < s.capDrv then
+      match s.mapH.lookup c with
+      | some o =>
+        let s := { s with mapH := s.mapH.filter (fun e => e.1 != c) }
+        let s := s.pushDrv ⟨o, .h2d⟩
+        ({ s with dmaIn := rest, log := s.log ++ [.done o c .h2d true] }, true)
+      | none =>
+        match s.mapD.lookup c with
+        | some o =>
+          let s := { s with mapD := s.mapD.filter (fun e => e.1 != c) }
+          let s := s.pushDrv ⟨o, .d2h⟩
+          ({ s with dmaIn := rest, log := s.log ++ [.done o c .d2h true] }, true)
+        | none => ({ s with fault := some "never" }, true)
+    else (s, false)
+
+/-- `ctrlMiddleware.processRspFromCaches` → `processCacheFlushRsp` → `processRegularCacheFlush`
+    (`numCacheACK` is a `uint64`: decrementing 0 wraps). The last acknowledgement stays in ToCaches
+    while the flush answer does not fit into ToDriver (`numCacheACK == 1 && … && !ToDriver.CanSend()`). -/
+def Cp.cacheRsp (s : Cp) : Cp × Bool :=
+  if s.fault.isSome then (s, false) else
+  match s.cacheIn with
+  | [] => (s, false)
+  | _ :: rest =>
+    if s.numAck = 1 ∧ ¬ s.drvOut.length < s.capDrv then (s, false) else
+    let n := if s.numAck = 0 then 18446744073709551615 else s.numAck - 1
+    let s := { s with numAck := n, cacheIn := rest, log := s.log ++ [.ack] }
+    if n = 0 then
+      match s.curFlush with
+      | none => ({ s with fault := some "nilderef" }, true)
+      | some f =>
+        let s := s.pushDrv ⟨f, .flush⟩
+        ({ s with curFlush := none, log := s.log ++ [.flushDone f true] }, true)
+    else (s, true)
+
+/-- `cpMiddleware.Tick` then `ctrlMiddleware.Tick` -/
+def Cp.pass (s : Cp) : Cp × Bool :=
+  let a := s.handle
+  let b := a.1.dmaRsp
+  let c := b.1.cacheRsp
+  (c.1, a.2 || b.2 || c.2)
+
+/-- `CommandProcessor.Tick` (dispatchers idle) -/
+def Cp.tick (s : Cp) : Cp × Bool :=
+  if s.fault.isSome then (s, false) else
+  let a := if s.drvIn.isEmpty then (s, false) else s.pass
+  let b := a.1.pass
+  (b.1, a.2 || b.2)
+
+/-! ## The code before the repair (`…Old`): the error of `ToDMA.Send(cloned)` and of
+`ToDriver.Send(rsp)` (three times) was ignored — the message was dropped when the outgoing buffer was
+full (ghost event with `sent = false`) while the request / answer that caused it had been consumed. -/
+
 /-- `ToDriver.Send(rsp)` with the error ignored -/
 def Cp.sendDrv (s : Cp) (m : CpMsg) : Cp × Bool :=
   if s.drvOut.length < s.capDrv then ({ s with drvOut := s.drvOut ++ [m] }, true) else (s, false)
 
-/-- `cpMiddleware.Handle`: `processFlushReq` / `processMemCopyReq` -/
-def Cp.handle (s : Cp) : Cp × Bool :=
+/-- `cpMiddleware.Handle` before the repair -/
+def Cp.handleOld (s : Cp) : Cp × Bool :=
   if s.fault.isSome then (s, false) else
   match s.drvIn with
   | [] => (s, false)
@@ -113,8 +210,8 @@ def Cp.handle (s : Cp) : Cp × Bool :=
       let s := if ok then { s with dmaOut := s.dmaOut ++ [{ cid := cid, orig := m.id, kind := k }] } else s
       ({ s with drvIn := rest, log := s.log ++ [.fwd m.id cid k ok] }, true)
 
-/-- `cpMiddleware.processRspFromDMAs` → `processMemCopyRsp` -/
-def Cp.dmaRsp (s : Cp) : Cp × Bool :=
+/-- `processMemCopyRsp` before the repair -/
+def Cp.dmaRspOld (s : Cp) : Cp × Bool :=
   if s.fault.isSome then (s, false) else
   match s.dmaIn with
   | [] => (s, false)
@@ -132,9 +229,8 @@ def Cp.dmaRsp (s : Cp) : Cp × Bool :=
         ({ r.1 with dmaIn := rest, log := r.1.log ++ [.done o c .d2h r.2] }, true)
       | none => ({ s with fault := some "never" }, true)
 
-/-- `ctrlMiddleware.processRspFromCaches` → `processCacheFlushRsp` → `processRegularCacheFlush`
-    (`numCacheACK` is a `uint64`: decrementing 0 wraps) -/
-def Cp.cacheRsp (s : Cp) : Cp × Bool :=
+/-- `processCacheFlushRsp` → `processRegularCacheFlush` before the repair -/
+def Cp.cacheRspOld (s : Cp) : Cp × Bool :=
   if s.fault.isSome then (s, false) else
   match s.cacheIn with
   | [] => (s, false)
@@ -149,18 +245,18 @@ def Cp.cacheRsp (s : Cp) : Cp × Bool :=
         ({ r.1 with curFlush := none, log := r.1.log ++ [.flushDone f r.2] }, true)
     else (s, true)
 
-/-- `cpMiddleware.Tick` then `ctrlMiddleware.Tick` -/
-def Cp.pass (s : Cp) : Cp × Bool :=
-  let a := s.handle
-  let b := a.1.dmaRsp
-  let c := b.1.cacheRsp
+/-- one pass before the repair -/
+def Cp.passOld (s : Cp) : Cp × Bool :=
+  let a := s.handleOld
+  let b := a.1.dmaRspOld
+  let c := b.1.cacheRspOld
   (c.1, a.2 || b.2 || c.2)
 
-/-- `CommandProcessor.Tick` (dispatchers idle) -/
-def Cp.tick (s : Cp) : Cp × Bool :=
+/-- `CommandProcessor.Tick` before the repair -/
+def Cp.tickOld (s : Cp) : Cp × Bool :=
   if s.fault.isSome then (s, false) else
-  let a := if s.drvIn.isEmpty then (s, false) else s.pass
-  let b := a.1.pass
+  let a := if s.drvIn.isEmpty then (s, false) else s.passOld
+  let b := a.1.passOld
   (b.1, a.2 || b.2)
 
 /-! ## Environment: the driver, the DMA engine and the caches, in any order -/
@@ -241,6 +337,19 @@ def CpEnv.step (e : CpEnv) : CpOp → CpEnv × String
 def CpEnv.run (e : CpEnv) : List CpOp → CpEnv
   | [] => e
   | op :: rest => ((e.step op).1).run rest
+
+/-- the environment around the code before the repair -/
+def CpEnv.stepOld (e : CpEnv) : CpOp → CpEnv × String
+  | .tick =>
+    let r := e.s.tickOld
+    ({ e with s := r.1 }, match r.1.fault with
+      | some f => "fault:" ++ f
+      | none => if r.2 then "t1" else "t0")
+  | op => e.step op
+
+def CpEnv.runOld (e : CpEnv) : List CpOp → CpEnv
+  | [] => e
+  | op :: rest => ((e.stepOld op).1).runOld rest
 
 def CpEnv.init (nCaches capIn capDrv capDma capCache : Nat) : CpEnv :=
   { s := { nCaches := nCaches, capIn := capIn, capDrv := capDrv, capDma := capDma, capCache := capCache } }
